@@ -277,6 +277,21 @@ class Engine(
                     # No Deduplication, so we can just add the Projection to
                     # the existing Select and reapply it.
                     match select.skip_to:
+                        case BinaryOperationRelation(operation=Chain()) if not (
+                            select.sort.columns_required <= operation.columns
+                        ):
+                            # The Sort needs columns this Projection drops, so
+                            # the Projection cannot be moved inside the Chain
+                            # (the ORDER BY of a UNION can only see its result
+                            # columns); nest the Chain in a subquery instead,
+                            # keeping the Sort and Slice in the outer query.
+                            subquery = select.reapply_skip(sort=None, slice=None)
+                            return Select.apply_skip(
+                                subquery,
+                                projection=operation,
+                                sort=select.sort,
+                                slice=select.slice,
+                            )
                         case BinaryOperationRelation(operation=Chain() as chain, lhs=lhs, rhs=rhs):
                             # ... unless the skip_to relation is a Chain; we
                             # want to move the Projection inside the Chain, to
